@@ -357,8 +357,8 @@ theorem orIf_or (b : Bool) (m x k : Nat) : (orIf b m x) ||| k = orIf b m (x ||| 
 /-- or-ing `headerBitTC` into the packed flag word = packing the header with `Truncated` set -/
 theorem bitsOfHeader_tc (h : Header) :
     Nat.lor (bitsOfHeader h) headerBitTC = bitsOfHeader { h with truncated := true } := by
-  rw [lor_eq, bitsOfHeader_orIf, bitsOfHeader_orIf, headerBitTC, orIf_or, orIf_or, orIf_or, orIf_or]
-  congr 4
+  rw [lor_eq, bitsOfHeader_orIf, bitsOfHeader_orIf, headerBitTC, orIf_or, orIf_or, orIf_or, orIf_or, orIf_or]
+  congr 5
   cases h.truncated
   · simp [orIf, lor_eq]
   · simp only [orIf, if_true, lor_eq]
